@@ -16,7 +16,7 @@ pub struct Case {
     pub scenario: Scenario,
     /// 1-based index of the failing component call
     pub k: usize,
-    /// "Other" | "PermissionDenied" | "UnexpectedEof" | "Interrupted"
+    /// "Other" | "PermissionDenied" | "UnexpectedEof" | "Interrupted" | a name from MORE_KINDS
     pub kind: String,
     pub creator_err: CreatorErr,
     /// 0 default transfers, 1 always one byte, 2 interrupted then one byte
@@ -29,9 +29,42 @@ fn kind_of(s: &str) -> ErrorKind {
         "PermissionDenied" => ErrorKind::PermissionDenied,
         "UnexpectedEof" => ErrorKind::UnexpectedEof,
         "Interrupted" => ErrorKind::Interrupted,
-        _ => panic!("bad kind"),
+        other => match MORE_KINDS.iter().find(|(n, _)| *n == other) {
+            Some((_, k)) => *k,
+            None => panic!("bad kind"),
+        },
     }
 }
+
+/// "for each error kind": the other `io::ErrorKind`s (all but `Interrupted`, which a robust
+/// implementation may retry), injected in the tiny scenarios — a site that treats one kind
+/// specially (turns it into another error, retries it, takes it for end of input) shows there
+pub const MORE_KINDS: [(&str, ErrorKind); 24] = [
+    ("NotFound", ErrorKind::NotFound),
+    ("ConnectionRefused", ErrorKind::ConnectionRefused),
+    ("ConnectionReset", ErrorKind::ConnectionReset),
+    ("ConnectionAborted", ErrorKind::ConnectionAborted),
+    ("NotConnected", ErrorKind::NotConnected),
+    ("AddrInUse", ErrorKind::AddrInUse),
+    ("AddrNotAvailable", ErrorKind::AddrNotAvailable),
+    ("BrokenPipe", ErrorKind::BrokenPipe),
+    ("AlreadyExists", ErrorKind::AlreadyExists),
+    ("WouldBlock", ErrorKind::WouldBlock),
+    ("InvalidInput", ErrorKind::InvalidInput),
+    ("InvalidData", ErrorKind::InvalidData),
+    ("TimedOut", ErrorKind::TimedOut),
+    ("WriteZero", ErrorKind::WriteZero),
+    ("Unsupported", ErrorKind::Unsupported),
+    ("OutOfMemory", ErrorKind::OutOfMemory),
+    ("StorageFull", ErrorKind::StorageFull),
+    ("NotSeekable", ErrorKind::NotSeekable),
+    ("FileTooLarge", ErrorKind::FileTooLarge),
+    ("ResourceBusy", ErrorKind::ResourceBusy),
+    ("Deadlock", ErrorKind::Deadlock),
+    ("ReadOnlyFilesystem", ErrorKind::ReadOnlyFilesystem),
+    ("IsADirectory", ErrorKind::IsADirectory),
+    ("HostUnreachable", ErrorKind::HostUnreachable),
+];
 
 fn policy_of(p: u8) -> Policy {
     match p {
@@ -121,6 +154,10 @@ pub fn run(tier: Tier) -> i32 {
             list.push((format!("{n}-policy{p}"), s, p));
         }
     }
+    // the tiny scenarios once more under default transfers: there every other error kind is injected
+    for (n, s) in crate::scen::mini_scenarios() {
+        list.push((format!("kinds-{n}"), s, 0));
+    }
     // build the complete case list
     let mut cases: Vec<(usize, Case, String)> = Vec::new();
     let mut bases: Vec<Vec<StepRec>> = Vec::new();
@@ -149,6 +186,12 @@ pub fn run(tier: Tier) -> i32 {
                 let mut push = |kind_s: &str, ce: CreatorErr| {
                     cases.push((bi, Case { scenario: s.clone(), k, kind: kind_s.to_string(), creator_err: ce, policy }, name.clone()));
                 };
+                // every other error kind, in the tiny scenarios
+                if name.starts_with("kinds-") && !matches!(kind, CallKind::Merge) {
+                    for (ks, _) in MORE_KINDS.iter() {
+                        push(ks, CreatorErr::Io);
+                    }
+                }
                 match kind {
                     CallKind::Write | CallKind::Read => {
                         for ks in ["Other", "PermissionDenied", "UnexpectedEof"] {
@@ -204,7 +247,7 @@ pub fn run(tier: Tier) -> i32 {
         total.sample(|| json!({"example_case": c}));
     }
     rep.acc = total;
-    rep.set("rule", json!("E3 fault enumeration: for every scenario of C11 (plus failing merge function and failing chunk creator) one global counter runs over all component calls (write, flush, read, seek, create, merge); N = calls in the fault-free run; for EVERY k in 1..=N and each error kind (custom-payload Other, PermissionDenied, UnexpectedEof — Interrupted is never injected: retrying it is legitimate; a merge error; a creator failing with Io, InvalidCompressionType and InvalidFormatVersion) the k-th call fails; tiny scenarios are additionally enumerated under 1-byte (quick and thorough) and interrupted-then-1-byte (thorough) transfer schedules, i.e. faults in the middle of write_all/read_exact loops. Oracle: every public call before the fault returns what the fault-free run returned; the public call in progress returns Err (Error::Io keeping the injected kind or payload when no third-party codec sits in between, Error::Merge carrying the injected value, the creator's own variant) — never Ok, never a panic; the fault-free run reports no error. evaluations = single-fault runs; distinct_nontrivial = runs in which the fault fired"));
+    rep.set("rule", json!("E3 fault enumeration: for every scenario of C11 (plus failing merge function and failing chunk creator) one global counter runs over all component calls (write, flush, read, seek, create, merge); N = calls in the fault-free run; for EVERY k in 1..=N and each error kind (custom-payload Other, PermissionDenied, UnexpectedEof, and in the tiny scenarios under default transfers also each of 24 further io::ErrorKinds from NotFound to HostUnreachable — Interrupted is never injected: retrying it is legitimate; a merge error; a creator failing with Io, InvalidCompressionType and InvalidFormatVersion) the k-th call fails; tiny scenarios are additionally enumerated under 1-byte (quick and thorough) and interrupted-then-1-byte (thorough) transfer schedules, i.e. faults in the middle of write_all/read_exact loops. Oracle: every public call before the fault returns what the fault-free run returned; the public call in progress returns Err (Error::Io keeping the injected kind or payload when no third-party codec sits in between, Error::Merge carrying the injected value, the creator's own variant) — never Ok, never a panic; the fault-free run reports no error. evaluations = single-fault runs; distinct_nontrivial = runs in which the fault fired"));
     rep.set("bound", json!({"scenarios": list.iter().map(|x| x.0.clone()).collect::<Vec<_>>(), "transfer_policies_on_mini_scenarios": policies, "single_faults": cases.len()}));
     rep.assume("behaviour after a call returned Err is unspecified: the scenario stops at the first error");
     rep.finish()
